@@ -185,6 +185,10 @@ func runC03(cfg Config) {
 		}
 		otherData := randBytes(rng, 1+rng.Intn(300))
 		id := desync.Digest.Sum(data)
+		if it%9 == 8 {
+			// the all-zero ID: what `Chunk.ID()` yields when the data cannot be obtained; no stored object hashes to it
+			id = desync.ChunkID{}
+		}
 		for _, comp := range []bool{true, false} {
 			good, other := data, otherData
 			if comp {
@@ -312,13 +316,16 @@ func runC03(cfg Config) {
 								rep.Disagree(Disagreement{Kind: "correspondence", Case: clip(caseLine, 100000), Model: clip(exp, 300), Impl: clip(got, 300),
 									What: "model and implementation differ (" + cname + ")"})
 							}
+							if !skip && got == "ok nodata" {
+								monitor("with verification on, a store handed out a chunk object whose data cannot be obtained ("+cname+", "+tag+")", caseLine, got)
+							}
 							if !skip && strings.HasPrefix(got, "ok ") && got != "ok nodata" {
 								sum := desync.Digest.Sum(unhx(got[3:]))
 								if sum != id {
 									monitor("delivered chunk data does not hash to the requested ID ("+cname+", "+tag+")", caseLine, got)
 								}
 							}
-							if cname == "intact" && got != "ok "+hx(data) {
+							if cname == "intact" && id != (desync.ChunkID{}) && got != "ok "+hx(data) {
 								monitor("an intact stored chunk is not delivered ("+tag+")", caseLine, got)
 							}
 						}
